@@ -829,6 +829,10 @@ public:
     programSizeBytes += paddingBytes;
   }
 
+  /// Return the size of the assembled program image in bytes (padded to a
+  /// whole number of words).
+  size_t getProgramSizeBytes() const { return programSizeBytes; }
+
   /// Return the size of the program in bytes (after resolveLabels()).
   size_t getProgramSize() {
     if (program.empty()) {
